@@ -308,6 +308,10 @@ def run(ctx):
     ctx.floor('R03.7', 'server PDU layouts compared', n, 10)
 
 
+    # ---- R03.10 PER length determinants of the MCS envelopes (rule R18.3 of C18, same facts): a 128-byte Client Info must not be announced as 0x80 --
+    import c18
+    ctx.include(c18.run, ('R18.3',), 'R03.10')
+
 def field_stores(P, owner, field):
     """[(body key, operand stored)] for every statement storing into owner.field"""
     out = []
